@@ -118,7 +118,9 @@ Proof. exact pha_single_use_all. Qed.
    in peer_not_allowed_to_send mode, CertificateRequest to an endpoint that did not offer PHA or
    with an empty compression list, Certificate without an outstanding request or with an
    unknown/empty/used context, stray CertificateVerify/Finished/other handshake messages,
-   NewSessionTicket to anything but a TLS 1.3 client): the reader sends the fatal alert, closes,
+   NewSessionTicket to anything but a TLS 1.3 client, and record-ALIGNMENT violations: a KeyUpdate or
+   a post-handshake Finished followed in its record by further handshake bytes -- a whole message
+   or a fragment that would span the key change, RFC 8446 5.1): the reader sends the fatal alert, closes,
    and returns nothing.  FULL: no class is excluded.
    (Before df198c5 the class "NewSessionTicket sent to a TLS 1.3 SERVER" had to be excluded
    (..._partial) and ..._refuted showed a server storing the client's ticket and going on.) *)
@@ -176,13 +178,24 @@ Proof. vm_compute. repeat split. Qed.
 
 Example ex_bad_control_hypotheses :
   bad_control true (ep0 ex_sc) (MKU 2) = Some 47 /\ bad_control true (ep0 ex_sc) (MCert 5 7) = Some 10 /\
-  bad_control false (ep0 ex_cc) MNST = Some 10 /\ bad_control true (ep0 ex_cc) (MKU 1) = None.
+  bad_control false (ep0 ex_cc) MNST = Some 10 /\ bad_control true (ep0 ex_cc) (MKU 1) = None /\
+  bad_control true (ep0 ex_cc) (MKUx 1) = Some 10 /\ bad_control true (ep0 ex_sc) (MFinx true) = Some 10.
 Proof. vm_compute. repeat split. Qed.
 
 Example ex_pha_request_without_compression :
   let s := exec (init true ex_cc ex_sc 0)
              [(false, ORequestAuth false); (false, ORead 0); (true, ORead 0); (false, ORead 0)] in
   alerts (io (eb s)) = [] /\ alerts (io (ea s)) = [] /\ closed (io (eb s)) = false /\ chain (au (eb s)) = 7.
+Proof. vm_compute. repeat split. Qed.
+
+(* a PHA answer whose (valid) Finished does not end its record is refused and records no chain;
+   a KeyUpdate that shares its record with a following message does not change the read keys *)
+Example ex_alignment_violations :
+  let s1 := exec (init true ex_cc ex_sc 0)
+              [(true, OSetDev 7); (false, ORequestAuth true); (true, ORead 0); (false, ORead 0)] in
+  let s2 := exec (init true ex_cc ex_sc 0) [(false, OInject (MKUx 0)); (true, ORead 0)] in
+  alerts (io (eb s1)) = [10] /\ chain (au (eb s1)) = 0 /\ accepted (au (eb s1)) = [] /\
+  alerts (io (ea s2)) = [10] /\ rgen (ks (ea s2)) = 0.
 Proof. vm_compute. repeat split. Qed.
 
 Example ex_init_ok : init_ok ex_cc ex_sc.
